@@ -146,6 +146,11 @@ def run(ctx):
                 except Exception as e:
                     impl.append(['err', exc_name(e)])
                 ctx.case(ops[-1])
+                # the facade itself keeps DONE and FAILED: whoever calls _update (the notification path, or the
+                # pilot-died path racing with it) cannot move a finished task to another state
+                if c in ('DONE', 'FAILED') and task.state != c:
+                    ctx.fail('task-object:final-state-left', 'Task._update(%s) on a %s task: now %s' % (t, c, task.state),
+                             {'kind': 'tupdate', 'cur': c, 'tgt': t, 'reconnect': rc})
     common.compare(ctx, 'states', ops, impl, what='Task._update exhaustive')
 
     # -- collapse ---------------------------------------------------------------
@@ -212,6 +217,13 @@ def run(ctx):
 def replay(ctx, data):
     rp = rpload.load()
     inp = data['input']
+    if inp.get('kind') == 'tupdate':
+        tm = stubs.make_tmgr(rp)
+        task = stubs.make_task(rp, tm, 'task.000000', inp['cur'])
+        try: task._update({'uid': task.uid, 'state': inp['tgt']}, reconnect=inp['reconnect'])
+        except Exception as e: print('raised', e)
+        print('observed:', task.state)
+        return task.state == inp['cur']
     res, errs = run_history(rp, inp['tasks'], inp['batches'])
     bad = monitor(rp, inp['tasks'], inp['batches'], res, errs)
     print('observed:', res, errs, bad)
